@@ -718,6 +718,15 @@ func (s *SliceExpression) Type() *Type {
 	return s.T
 }
 
+func (s *SliceExpression) infer() {
+	if s.T == EMPTY_ARRAY { // slice of an empty array literal, e.g. [][:]
+		if inf, ok := s.Left.(inferrer); ok {
+			inf.infer()
+		}
+		s.T = s.Left.Type()
+	}
+}
+
 // DotExpression is an AST node that represents a field access
 // expression. A field access expression is an expression that accesses
 // the value of a field in a map, such as person.age.
@@ -775,8 +784,8 @@ func (d *GroupExpression) Type() *Type {
 }
 
 func (d *GroupExpression) infer() {
-	if d.Type() == EMPTY_ARRAY {
-		d.Expr.(inferrer).infer()
+	if inf, ok := d.Expr.(inferrer); ok {
+		inf.infer()
 	}
 }
 
